@@ -174,6 +174,35 @@ def make_file(rng):
         k = 2000 + j
         tests.append(f"def test_{k}():\n    " + (body % rng.randint(10, 90)) + "\n")
         metas[f"test_{k}"] = {"bad": bad, "kind": kind, "pos": "-", "ops": ["eq"], "asserting": True}
+    # one snapshot() call executed by several tests of the session (parametrised test, helper called from two
+    # tests): the snapshot object lives for the whole session, the per-test counters do not - every test that
+    # executes the empty / wrong snapshot is bad, not only the first one (seeded round 6)
+    x = rng.randint(10, 90)
+    shared = [
+        ("shared-empty-eq", True, f"assert {x} == snapshot()"),
+        ("shared-empty-req", True, f"assert snapshot() == {x}"),
+        ("shared-empty-getitem", True, f"assert snapshot()['k'] == {x}"),
+        ("shared-empty-subkey", True, f"assert snapshot({{'other': 1}})['k'] == {x}"),
+        ("shared-empty-le", True, f"assert {x} <= snapshot()"),
+        ("shared-empty-in", True, f"assert {x} in snapshot()"),
+        ("shared-empty-ignored", True, f"_ = {x} == snapshot()"),
+        ("shared-wrong-eq", True, f"assert {x} == snapshot({x + 1})"),
+        ("shared-wrong-in", True, f"assert {x} in snapshot([{x + 1}])"),
+        ("shared-good-eq", False, f"assert {x} == snapshot({x})"),
+        ("shared-good-le", False, f"assert {x} <= snapshot({x + 2})"),
+    ]
+    for j, (kind, bad, body) in enumerate(shared):
+        k = 4000 + j
+        op = kind.split("-")[-1]
+        if j % 2 == 0:
+            tests.append(f"@pytest.mark.parametrize('i', [0, 1, 2])\ndef test_{k}(i):\n    {body}\n")
+            for i in range(3):
+                metas[f"test_{k}[{i}]"] = {"bad": bad, "kind": kind + "/param", "pos": str(i), "ops": [op], "asserting": "assert" in body, "def": f"test_{k}"}
+        else:
+            tests.append(f"def helper_{k}():\n    {body}\n")
+            for i in range(3):
+                tests.append(f"def test_{k}_{i}():\n    helper_{k}()\n")
+                metas[f"test_{k}_{i}"] = {"bad": bad, "kind": kind + "/helper", "pos": str(i), "ops": [op], "asserting": "assert" in body, "def": f"helper_{k}"}
     return HEADER + "\n".join(tests), metas
 
 
@@ -254,6 +283,7 @@ def run_shard(args):
 
 
 def _test_source(src, tname):
+    tname = tname.split("[")[0]
     i = src.index(f"def {tname}(")
     j = src.find("\ndef ", i + 1)
     return src[i : j if j != -1 else None]
